@@ -319,7 +319,7 @@ class BuildAssembly(Assembly):
             if isinstance(scffld, OverlapResult):
                 build_scffld.append_scaffold(scffld.to_scaffold(), gap)
             else:
-                build_scffld.append_scaffold(scffld)
+                build_scffld.append_scaffold(scffld, gap)
 
         for scffld in hap_name_scaffold.values():
             yield scffld
